@@ -8,6 +8,7 @@ import (
 	"go/ast"
 	"go/constant"
 	"go/token"
+	"math"
 	"strconv"
 )
 
@@ -206,6 +207,10 @@ func ConstToAst(val constant.Value) ast.Expr {
 	case constant.Int:
 		return &ast.BasicLit{Kind: token.INT, Value: val.ExactString()}
 	case constant.Float:
+		// String is a shortened form meant for humans; keep every digit.
+		if f, _ := constant.Float64Val(val); !math.IsInf(f, 0) {
+			return &ast.BasicLit{Kind: token.FLOAT, Value: strconv.FormatFloat(f, 'g', -1, 64)}
+		}
 		return &ast.BasicLit{Kind: token.FLOAT, Value: val.String()}
 	case constant.Complex:
 		return CallExprByName("complex", ConstToAst(constant.Real(val)), ConstToAst(constant.Imag(val)))
